@@ -152,7 +152,7 @@ func init() {
 		raw := e.symBytes("cert."+name+".raw", e.tb.I64(int64(n)), uint64(n))
 		p.inputs = p.inputs[:len(p.inputs)-1] // natively a real certificate
 		e.setField(cp, T, "Raw", raw)
-		// issuer: the name of the one test CA, "CN=<7 letters>", letters symbolic and shared by all
+		// issuer: the name of the one test CA, "CN=<7 letters>" (as UTF8String), letters symbolic and shared by all
 		// certificates of the path; the native vsym.Cert creates its CA with the same name (input
 		// "ca.cn"), so the issuer bytes are the same in the model and in native replays
 		if p.caCN.Obj == nil {
@@ -165,7 +165,7 @@ func init() {
 			}
 		}
 		var it []*Term
-		for _, b := range []byte{0x30, 0x12, 0x31, 0x10, 0x30, 0x0e, 0x06, 0x03, 0x55, 0x04, 0x03, 0x13, 0x07} {
+		for _, b := range []byte{0x30, 0x12, 0x31, 0x10, 0x30, 0x0e, 0x06, 0x03, 0x55, 0x04, 0x03, 0x0c, 0x07} {
 			it = append(it, e.tb.Const(8, uint64(b)))
 		}
 		for i := int64(0); i < 7; i++ {
